@@ -1,5 +1,6 @@
 SPECIFICATION TraceSpec
 CONSTANTS
   Calibrate = FALSE
+  PolylineVariant = "fixed"
 POSTCONDITION Accepted
 CHECK_DEADLOCK FALSE
